@@ -29,7 +29,9 @@ Record Laws (O : Ops) : Prop := mkLaws {
   (* primitivity of roots of unity: exp(2 pi i k/n) = 1 only when n divides k *)
   L_root_prim : forall (n : nat) (k : Z), n <> 0%nat ->
      cexp O (cmul O (ci O) (cmul O (cmul O (cofZ O 2%Z) (cpi O)) (cdiv O (cofZ O k) (cofZ O (Z.of_nat n))))) = c1 O ->
-     (Z.of_nat n | k)%Z
+     (Z.of_nat n | k)%Z;
+  (* the order test is irreflexive (used for `xm**2 + ym**2 > 0.0` at the origin) *)
+  L_ltb_irrefl : forall x, cltb O x x = false
 }.
 
 Section Facts.
